@@ -25,6 +25,10 @@ CHECKS = {
  'C02': dict(level='exploration', ref='3/C02', technique='differential execution monitor on raw object representations (gcc == clang as executable references, exact Fraction domain monitor for fp->int) + x87/MXCSR control-word statement probes in the emitted code',
              text='Floating operands are bit patterns read from run-time tables; every observation records the 4/8/10 significant bytes of the result. Operators x type pairs x value classes and all conversions with a floating side are walked as a grid over boundary classes (zeros, denormals, 2^24, 2^31, 2^32, 2^53, 2^63, 2^64-1, inf, NaNs, halfway cases), in cast/assignment/argument/return/op=/variadic contexts, plus literals and random composites. The chibicc build carries statement probes that check the x87 control word and MXCSR after every statement.',
              note='gcc -O0 == clang -O0 trusted where they agree; NaN payload/sign ignored; out-of-range fp->int not generated (undefined)'),
+
+ 'C08': dict(level='exploration', ref='3/C08', technique='differential layout monitor: sizeof/_Alignof/member offsets and observed bit images (set one member, dump bytes) printed by chibicc-compiled code vs gcc == clang as psABI reference implementations',
+             text='All permutations of all valid C11 type-specifier multisets are enumerated (exhaustive sub-space); struct/union member sequences with bit-fields (incl. zero-width and unnamed), nested/anonymous aggregates, flexible array members, aligned/_Alignas/packed are sampled randomly (6 000 types, ~95 000 layout observations per quick run); bit-field positions are observed through byte images rather than trusted; declarators are checked through sizeof.',
+             note='gcc == clang trusted as the psABI; packed structs with bit-fields only in the dedicated probe of an open finding; no system headers in layout TUs (glibc defines __attribute__ away for non-GNU compilers)'),
 }
 REASON_WIP = 'check not built yet in this session (planned, see DESIGN.md section 3); will be claimed once its monitor is silent on the unchanged tree'
 
